@@ -1702,6 +1702,40 @@ class Engine:
             return False, 'procedure call is not in a loop'
         return True, 'calls its first parameter in a loop and leaves only when a call returned true'
 
+    def spin_rounds(self, fn):
+        """(ok, detail): every round of the outermost loop of a spin function evaluates the procedure at least once.  Decided by
+        following the body with the configured constants (a retry bound of 0 makes `for (i = 0; i < bound; ++i) if (proc()) return;`
+        a loop that only sleeps); paths that are cut because they never leave the loop are inspected too."""
+        cache = self.__dict__.setdefault('_spin_rounds', {})
+        if fn['key'] in cache:
+            return cache[fn['key']]
+        try:
+            res = self.paths(fn, init_store={}, keep=('return', 'throw', 'cut'))
+        except AnalysisBroken as ex:
+            cache[fn['key']] = (None, str(ex)[:100])
+            return cache[fn['key']]
+        out = (True, 'every round of the outer loop calls the procedure (%d paths followed)' % len(res['paths']))
+        for p in res['paths']:
+            heads = [e for e in p.events if e['kind'] == 'loop_head']
+            if not heads:
+                continue
+            outer = heads[0]['header']
+            idx = [e['seq'] for e in heads if e['header'] == outer]
+            for a, b in zip(idx, idx[1:]):
+                seg = p.events[a:b]
+                # (a function accepted as a spin function calls nothing but its procedure and the pause / sleep primitives)
+                called = any(e['kind'] in ('inline_begin', 'lambda_call') or
+                             (e['kind'] == 'call' and (e.get('name') or '') not in ('std::this_thread::sleep_for', 'sleep_for', '_mm_pause', '__builtin_ia32_pause') and
+                              not str(e.get('name') or '').startswith('std::chrono')) for e in seg)
+                if not called:
+                    out = (False, 'a round of the outer loop (blocks %s) does not call the procedure: with this configuration the helper only pauses / sleeps '
+                                  'and never sees the condition become true' % sorted({e.get('header') for e in seg if e['kind'] == 'loop_head'}))
+                    break
+            if out[0] is False:
+                break
+        cache[fn['key']] = out
+        return out
+
     @staticmethod
     def _unwrap(a, elems=None):
         while True:
